@@ -71,7 +71,7 @@ def generate(rng, tier, index):
     clients = []
     for c in range(nclients):
         clients.append(gen_history(rng.fork("c%d" % c), rng.range(6, 22) if concurrent else rng.range(8, 60), c))
-    plan = {"prop": PROP, "clients": clients, "fbuf": rng.choice([12, 24, 40, 400]),
+    plan = {"prop": PROP, "clients": clients, "fbuf": rng.choice([12, 24, 40, 400]), "sweep_pct": rng.choice([100, 100, 50, 15, 0]),
             "concurrent": concurrent, "preempt": rng.choice([3, 10, 30, 60]), "sched_seed": rng.next() >> 1}
     return plan
 
@@ -84,22 +84,28 @@ def gen_history(rng, n, client):
     for _ in range(n):
         live = [s for s, (k, l) in slots.items() if l]
         r = rng.below(100)
-        if not live or (r < 10 and len(live) < 5):
+        if (not live and not (dead and r < 35)) or (r < 10 and len(live) < 5):
             kind = rng.choice(["cpp", "cpp", "c", "f"])
             ops.append({"op": "create", "slot": nextslot, "kind": kind})
             slots[nextslot] = (kind, True)
             nextslot += 1
             continue
-        if r < 16:
+        if r < 16 and live:
             s = rng.choice(live)
             kind = slots[s][0]
             how = "cpp" if kind == "cpp" and rng.chance(50) else rng.choice(["c", "f"])
             ops.append({"op": "destroy", "slot": s, "how": how})
             slots[s] = (kind, False)
             dead.append(s)
+            # post-mortem: the id just destroyed is used again at once (getter, setter, second destroy), with no call in between
+            if rng.chance(60):
+                for _ in range(rng.range(1, 3)):
+                    op = gen_call(rng) if rng.chance(60) else {"op": "destroy_raw"}
+                    op.update({"slot": s, "bind": rng.choice(["c", "f"]), "dead": True, "nosweep": True})
+                    ops.append(op)
             continue
         # target: mostly live, sometimes dead / raw id
-        if r < 28:
+        if r < 28 or not live:
             tk = rng.below(4)
             if tk == 0 and dead:
                 tgt = {"slot": rng.choice(dead)}
@@ -162,13 +168,17 @@ def min_db():
     return MIN_DB
 
 
+def unopenable(m):
+    return bool(m) and any(on and len(m.selname.get(n, "")) > 200 for n, on in m.selfile.items())
+
+
 def tgt_str(op, insts):
     if "raw" in op:
         return "i%d" % op["raw"]
     return "s%d" % op["slot"]
 
 
-def compile_client(hist, fbuf):
+def compile_client(hist, fbuf, sweep_pct=100):
     """returns (executor ops, checks) ; checks[i] describes how to judge executor op i"""
     ops, chk = [], []
     insts = {}
@@ -180,7 +190,13 @@ def compile_client(hist, fbuf):
     emit(["fbuf", str(fbuf)], None)
     emit(["mkfile", "runfile_dummy", ""], None)
 
-    def sweep(tag):
+    nsweep = [0]
+
+    def sweep(tag, force=False):
+        # deterministic thinning of the sweeps (plan knob): histories with few interleaved calls are histories too
+        nsweep[0] += 1
+        if not force and (nsweep[0] * 37) % 100 >= sweep_pct:
+            return
         for s in sorted(insts):
             m = insts[s]
             if not m.live:
@@ -225,7 +241,8 @@ def compile_client(hist, fbuf):
             m = insts[op["slot"]]
             emit(["destroy", str(op["slot"]), op["how"]], ("ret", "0"))
             m.live = False
-            sweep(tag)
+            if not (hi + 1 < len(hist) and hist[hi + 1].get("nosweep")):
+                sweep(tag)
             continue
         if "slot" in op and op["slot"] not in insts:
             continue
@@ -296,12 +313,12 @@ def compile_client(hist, fbuf):
             name, text, defs = RUN_BY_NAME[op["input"]]
             entry = op["entry"]
             if entry == "string":
-                emit(call(b, t, "RunString", text), ("run", dead, m.loaded if m else False, name))
+                emit(call(b, t, "RunString", text), ("run", dead, m.loaded if m else False, name, unopenable(m)))
                 if m:
                     m.acc, m.clear_flag = "", False
             elif entry == "file":
                 emit(["mkfile", "in_%d.pqi" % hi, text], None)
-                emit(call(b, t, "RunFile", "in_%d.pqi" % hi), ("run", dead, m.loaded if m else False, name))
+                emit(call(b, t, "RunFile", "in_%d.pqi" % hi), ("run", dead, m.loaded if m else False, name, unopenable(m)))
                 if m:
                     m.acc, m.clear_flag = "", False
             else:
@@ -314,7 +331,7 @@ def compile_client(hist, fbuf):
                     for line in text.rstrip("\n").split("\n"):
                         emit(call(b, t, "AccumulateLine", line), ("ret", "0"))
                         m.acc += line + "\n"
-                emit(call(b, t, "RunAccumulated"), ("run", dead, m.loaded if m else False, name))
+                emit(call(b, t, "RunAccumulated"), ("run", dead, m.loaded if m else False, name, unopenable(m)))
                 if m:
                     m.clear_flag = True
             if m and m.loaded:
@@ -341,7 +358,9 @@ def compile_client(hist, fbuf):
             if not dead:
                 continue
             emit(call(b if b != "cpp" else "c", t, "DestroyRaw"), ("ret", str(BADINST)))
-        sweep(tag)
+        if op.get("nosweep") and hi + 1 < len(hist) and hist[hi + 1].get("nosweep"):
+            continue
+        sweep(tag, force=bool(op.get("nosweep")))
     return ops, chk
 
 
@@ -391,7 +410,9 @@ def walk(rep, ops, chk, results, fbuf, cname):
                 rep.count("dead_id_calls")
             else:
                 want_err = (not loaded) or name == "err"
-                if (f[0] != "0") != want_err:
+                if c[4]:
+                    pass    # a selected-output file sink is on under a name that cannot be opened: the engine reports an input error or not depending on the block; not modelled
+                elif (f[0] != "0") != want_err:
                     rep.viol("retcode", "retcode:run", "%s run %s (db loaded=%s) returned %s" % (cname, name, loaded, f[0]))
                 if f[0] == "0":
                     rep.count("successful_runs")
@@ -412,6 +433,9 @@ def walk(rep, ops, chk, results, fbuf, cname):
             for k, v in exp.items():
                 v = sub_ids(v, ids)
                 g = got.get(k)
+                if g is None:
+                    rep.viol("model_mismatch", "getter:%s:%s:missing" % (b, k), "%s after %s: %s %s of slot %d could not be read (transcript %r)" % (cname, tag, b, k, s, o.f[:4]))
+                    continue
                 if b == "f" and k.startswith("n."):
                     raw, ln = unpad_f(g)
                     eraw, eln = f_expected(v, fbuf)
@@ -528,7 +552,7 @@ def compare_table_f(rep, cname, tag, s, k, v0, v):
 def check_plan(ctx, plan):
     rep = Report()
     fbuf = plan["fbuf"]
-    compiled = [compile_client(h, fbuf) for h in plan["clients"]]
+    compiled = [compile_client(h, fbuf, plan.get("sweep_pct", 100)) for h in plan["clients"]]
     # destroy_id pseudo-op: raw ids through C/F Destroy; the executor has no such op, so use the 'call' form
     clients = [ops for ops, chk in compiled]
     conc = plan.get("concurrent") and len(clients) > 1
